@@ -11,6 +11,8 @@ import (
 	"sort"
 	"strings"
 
+	"golang.org/x/tools/go/ssa"
+
 	"verif/checker/core"
 )
 
@@ -77,12 +79,13 @@ func callForms(ts []types.Type, c *core.Ctx) map[string]bool {
 }
 
 func c04(c *core.Ctx, r *core.Report) {
-	r.Explain("R04.pair: in CodeIdentifier.equalOnNonEmptyFields every conjunct pairs the compiled regex of field F with candidate field F and the emptiness test of specification field F (both in the regex arm and the plain arm); Kind is compared by equality. R04.compile: every regex slot is compiled by regexp.Compile from the like-named raw field (no anchoring added) and used with MatchString; the positional literal fills each slot with its own regex. R04.forms: every function that classifies call instructions against code identifiers accepts the three call forms (Call, Go, Defer), and entry-point scanning does not go through CallInstruction.Value() (nil for go/defer). R04.kinds: IsEntrypointNode has an arm for each documented identifier kind (call, field read x2, alloc, field store with kind \"store\", channel receive with kind \"channel receive\"), the kind strings agreeing with the documentation.")
+	r.Explain("R04.pair: in CodeIdentifier.equalOnNonEmptyFields every conjunct pairs the compiled regex of field F with candidate field F and the emptiness test of specification field F (both in the regex arm and the plain arm); Kind is compared by equality. R04.compile: every regex slot is compiled by regexp.Compile from the like-named raw field (no anchoring added) and used with MatchString; the positional literal fills each slot with its own regex. R04.forms: every function that classifies call instructions against code identifiers accepts the three call forms (Call, Go, Defer), and entry-point scanning does not go through CallInstruction.Value() (nil for go/defer). R04.uses: the classifiers (IsEntrypointNode, IsMatchingCodeIDWithCallee, isMatchingCodeID and their helpers) never consult the Referrers of the instruction: identification is a function of the instruction and the specification, not of how the value is used. R04.kinds: IsEntrypointNode has an arm for each documented identifier kind (call, field read x2, alloc, field store with kind \"store\", channel receive with kind \"channel receive\"), the kind strings agreeing with the documentation.")
 	r.NotDecided("matching over all programs x all RE2 patterns; callee resolution (C12).")
-	c04pair(c, r)
-	c04compile(c, r)
+	c04pairSSA(c, r)
+	c04compileSSA(c, r)
 	c04forms(c, r)
 	c04kinds(c, r)
+	c04uses(c, r)
 }
 
 func c04pair(c *core.Ctx, r *core.Report) {
@@ -261,52 +264,76 @@ func callFormRules(c *core.Ctx, r *core.Report, rule string) {
 }
 
 func c04kinds(c *core.Ctx, r *core.Report) {
-	d := c.FindDispatch("internal/analysisutil", "IsEntrypointNode", core.SSAPath, "Node")
-	if d == nil {
+	// SSA, helpers inlined: for the arm of each documented instruction shape, the Kind stored in the CodeIdentifier(s)
+	// the arm builds (directly or in a helper it calls, the kind possibly passed as an argument).
+	fn := c.Func("internal/analysisutil", "IsEntrypointNode")
+	if fn == nil {
 		return
 	}
-	// documented kind strings
 	doc, _ := os.ReadFile(c.RepoDir + "/doc/01_taint.md")
 	docKinds := map[string]bool{}
 	for _, m := range regexp.MustCompile(`kind:\s*"([^"]+)"`).FindAllStringSubmatch(string(doc), -1) {
 		docKinds[m[1]] = true
 	}
-	want := map[string]string{"*ssa.Call": "", "*ssa.Field": "", "*ssa.FieldAddr": "", "*ssa.Alloc": "", "*ssa.Store": "store", "*ssa.UnOp": "channel receive"}
+	want := map[string]string{"Call": "", "Field": "", "FieldAddr": "", "Alloc": "", "Store": "store", "UnOp": "channel receive"}
 	var ks []string
 	for k := range want {
 		ks = append(ks, k)
 	}
 	sort.Strings(ks)
 	for _, k := range ks {
-		var clause *ast.CaseClause
-		for _, cl := range d.Switch.Clauses {
-			for _, t := range cl.Types {
-				if t != nil && core.ShortType(t) == k {
-					clause = cl.Clause
-				}
+		key := "internal/analysisutil.IsEntrypointNode|kind|*ssa." + k
+		allEntries, ifBlocks := core.TypeCaseEntry(fn, k)
+		// only arms of the switch over the node parameter (nested assertions on operands are not arms)
+		var entries []*ssa.BasicBlock
+		for i, e := range allEntries {
+			iff := ifBlocks[i].Instrs[len(ifBlocks[i].Instrs)-1].(*ssa.If)
+			ta := iff.Cond.(*ssa.Extract).Tuple.(*ssa.TypeAssert)
+			if _, isParam := ta.X.(*ssa.Parameter); isParam {
+				entries = append(entries, e)
 			}
 		}
-		key := d.Func + "|kind|" + k
-		if clause == nil || len(clause.Body) == 0 {
-			r.Fail("R04.kinds", key, c.Pos(d.Switch.Stmt.Pos()), "no arm for "+k+": the documented identifier kind selecting these instructions never matches")
+		if len(entries) == 0 {
+			r.Fail("R04.kinds", key, c.Pos(fn.Pos()), "no arm for *ssa."+k+": the documented identifier kind selecting these instructions never matches")
 			continue
 		}
-		// Kind literal in the arm
-		kinds := map[string]bool{}
-		ast.Inspect(clause, func(n ast.Node) bool {
-			if kv, ok := n.(*ast.KeyValueExpr); ok {
-				if id, ok := kv.Key.(*ast.Ident); ok && id.Name == "Kind" {
-					if tv := d.Pkg.TypesInfo.Types[kv.Value]; tv.Value != nil {
-						kinds[constant.StringVal(tv.Value)] = true
-					}
+		region := map[*ssa.BasicBlock]bool{}
+		for _, e := range entries {
+			for _, b := range fn.Blocks {
+				if e.Dominates(b) {
+					region[b] = true
 				}
 			}
-			return true
-		})
-		if want[k] == "" {
-			r.Check(len(kinds) == 0, "R04.kinds", key, c.Pos(clause.Pos()), "arm builds an identifier with the default kind", "arm sets an undocumented Kind: default-kind specifications no longer match")
-		} else {
-			r.Check(kinds[want[k]] && docKinds[want[k]], "R04.kinds", key, c.Pos(clause.Pos()), "arm builds an identifier with the documented kind \""+want[k]+"\"",
+		}
+		kinds := map[string]bool{}
+		nIdent := 0
+		for _, ii := range core.InlinedInstrsFrom(c, fn, region, 3, func(ins ssa.Instruction) bool {
+			st, ok := ins.(*ssa.Store)
+			if !ok {
+				return false
+			}
+			n, f := core.FieldOf(st.Addr)
+			return n != nil && strings.HasSuffix(qualNamed(n), "config.CodeIdentifier") && (f.Name() == "Kind" || f.Name() == "Package" || f.Name() == "Type" || f.Name() == "Method" || f.Name() == "Field")
+		}) {
+			st := ii.Ins.(*ssa.Store)
+			_, f := core.FieldOf(st.Addr)
+			if f.Name() != "Kind" {
+				nIdent++
+				continue
+			}
+			for k := range ii.Slice(st.Val).Consts {
+				kinds[k] = true
+			}
+		}
+		pos := c.Pos(entries[0].Instrs[0].Pos())
+		switch {
+		case nIdent == 0:
+			r.Fail("R04.kinds", key, pos, "the arm for *ssa."+k+" builds no code identifier (directly or in the helpers it calls): the documented identifier kind selecting these instructions never matches")
+		case want[k] == "":
+			delete(kinds, "")
+			r.Check(len(kinds) == 0, "R04.kinds", key, pos, "arm builds an identifier with the default kind", "arm sets an undocumented Kind: default-kind specifications no longer match")
+		default:
+			r.Check(kinds[want[k]] && docKinds[want[k]], "R04.kinds", key, pos, "arm builds an identifier with the documented kind \""+want[k]+"\"",
 				"arm does not build an identifier of kind \""+want[k]+"\" (documented in doc/01_taint.md): specifications of that kind select nothing")
 		}
 	}
